@@ -102,7 +102,7 @@ macro_rules! aiger_out {
     }};
 }
 
-const WAYS: &[&str] = &["new", "from_read", "from_boxed_dyn_read", "from_buf_reader(unused, capacity 1)", "from_buf_reader(unused, capacity 8192)", "from_buf_reader(pre-filled, capacity 1)", "from_buf_reader(pre-filled, capacity 7)", "from_buf_reader(pre-filled, capacity 8192)"];
+const WAYS: &[&str] = &["new", "from_read", "from_boxed_dyn_read", "from_buf_reader(unused, capacity 1)", "from_buf_reader(unused, capacity 8192)", "from_buf_reader(pre-filled, capacity 1)", "from_buf_reader(pre-filled, capacity 7)", "from_buf_reader(pre-filled, capacity 8192)", "new on a reader that was advanced over a 7-byte preamble"];
 
 fn buf_reader(way: usize, src: Src) -> BufReader<Src> {
     let cap = match way {
@@ -117,14 +117,29 @@ fn buf_reader(way: usize, src: Src) -> BufReader<Src> {
     b
 }
 /// one parse of `doc` by format `f`, built in way `way`, under schedule `sched`
+const PREAMBLE: &[u8] = b"\xef\xbb\xbfx\n\ny";
 fn run(f: &str, way: usize, doc: &[u8], sched: Sched) -> (Out, Rc<Meter>) {
-    let (src, m) = Src::new(doc, sched);
+    // way 8: the document follows a preamble that the caller consumed before wrapping the reader (line 1 starts at the reader's position)
+    let mut with_preamble = PREAMBLE.to_vec();
+    with_preamble.extend_from_slice(doc);
+    let mut sched = sched;
+    if way == 8 {
+        sched.fail_at = sched.fail_at.map(|(k, kind)| (k + PREAMBLE.len(), kind));
+    }
+    let (src, m) = Src::new(if way == 8 { &with_preamble } else { doc }, sched);
     macro_rules! build {
         ($parser:ty, $cfg:expr) => {
             match way {
                 0 => {
                     let mut r = DeferredReader::from_read(src);
                     r.set_chunk_size(16384);
+                    <$parser>::new(LineReader::new(r), $cfg)
+                }
+                8 => {
+                    let mut r = DeferredReader::from_read(src);
+                    r.set_chunk_size(16384);
+                    r.request(PREAMBLE.len());
+                    r.advance(PREAMBLE.len());
                     <$parser>::new(LineReader::new(r), $cfg)
                 }
                 1 => <$parser>::from_read(src, $cfg),
@@ -192,7 +207,8 @@ fn case(di: usize, way: usize, si: usize) -> Option<(String, String)> {
         Err(p) => return Some(("C01 building and driving a parser returns instead of panicking".into(), format!("{} built by {}: panic: {}", what, WAYS[way], panic_msg(p)))),
     };
     if got.items != reference.items || got.end != reference.end {
-        return Some(("C01 same result for every way of building the parser".into(), format!("{}: built by new: {:?} then {:?}; built by {}: {:?} then {:?}", what, reference.items, reference.end, WAYS[way], got.items, got.end)));
+        let name = if way == 8 && PROP_NO.load(std::sync::atomic::Ordering::Relaxed) == 8 { "C08 an error is located relative to the position at which the LineReader was created" } else { "C01 same result for every way of building the parser" };
+        return Some((name.into(), format!("{}: built by new: {:?} then {:?}; built by {}: {:?} then {:?}", what, reference.items, reference.end, WAYS[way], got.items, got.end)));
     }
     // (with a pre-filled BufReader the end may have been reported to the BufReader, which is not the parser's doing)
     if got.calls_after_end > 0 && way < 5 {
@@ -225,7 +241,7 @@ pub fn suite(_prop: &str, _tier: &str, _seed: u64) -> Report {
             }
         }
     }
-    rep.bound = format!("ctor: {} documents (cnf, wcnf, gcnf with default configuration and with ignore_header, btor2, ascii and binary AIGER; well-formed, malformed, truncated, empty) x 7 ways of building the parser (from_read, from_boxed_dyn_read, from_buf_reader with an unused BufReader of capacity 1/8192 and a pre-filled one of capacity 1/7/8192) x {} schedules (one read, byte by byte, line by line, 5 bytes with every 2nd read interrupted, line by line with a fault at offset 11), each compared with the parser built by new(LineReader::new(DeferredReader::from_read(..)))", DOCS.len(), SCHEDS.len());
+    rep.bound = format!("ctor: {} documents (cnf, wcnf, gcnf with default configuration and with ignore_header, btor2, ascii and binary AIGER; well-formed, malformed, truncated, empty) x 8 ways of building the parser (new on a reader that was advanced over a preamble, from_read, from_boxed_dyn_read, from_buf_reader with an unused BufReader of capacity 1/8192 and a pre-filled one of capacity 1/7/8192) x {} schedules (one read, byte by byte, line by line, 5 bytes with every 2nd read interrupted, line by line with a fault at offset 11), each compared with the parser built by new(LineReader::new(DeferredReader::from_read(..)))", DOCS.len(), SCHEDS.len());
     rep
 }
 pub fn replay(_prop: &str, args: &[String]) -> i32 {
